@@ -273,20 +273,10 @@ def compare_trees(sa, sb, rng):
     if r["diffs"]:
         s0, a, b = r["diffs"][0]
         return "diff", f"at {X.sigma_json(s0)}: {a} vs {b}"
-    if r["undef_a"] != r["undef_b"]:
-        # defined at different points: compare definedness point by point
-        for s0 in sig:
-            da = db = True
-            try:
-                X.ev(sa, s0)
-            except X.Undef:
-                da = False
-            try:
-                X.ev(sb, s0)
-            except X.Undef:
-                db = False
-            if da != db:
-                return "diff", f"defined on one side only at {X.sigma_json(s0)}"
+    if r["undef_a"] or r["undef_b"]:
+        dd = X.definedness_differs(sa, sb, sig)
+        if dd:
+            return "diff", f"defined on one side only at {X.sigma_json(dd[0])} ({dd[1]} vs {dd[2]})"
     if r["common"] >= (3 if names else 1):
         return "same", ""
     return "skip", f"only {r['common']} comparable points"
